@@ -257,7 +257,8 @@ CondLoop ==
   /\ Running /\ Top(A).k = "cwait"
   /\ LET n == Top(A).n
          \* the comparison instance of a tracked value dies with its await
-         gone == IF n[1] = "cmp" THEN [obj EXCEPT !.lst[n[2]] = Without(@, n)] ELSE obj IN
+         \* (a shared instance, n[4] = 0, is kept by the client and listens for good)
+         gone == IF n[1] = "cmp" /\ n[4] # 0 THEN [obj EXCEPT !.lst[n[2]] = Without(@, n)] ELSE obj IN
      IF Mode = "exc"
      THEN /\ act' = Drop(act, A) /\ obj' = gone /\ UNCHANGED <<run, subs, pending>>
      ELSE IF Holds(n)
@@ -1183,12 +1184,14 @@ ResOp ==
         /\ UNCHANGED <<cnt>>
      \/ /\ act[A].ops > 0 /\ In("await_lvl")
         /\ \E p \in 1..NRes : \E v \in 0..2 : \E rel \in (IF In("lvl_rels") THEN Rels ELSE {"ge"}) :
-             \* `await (resources <rel> {a: v})`: a fresh comparison instance listens to the level for as long as it is awaited
+           \E shared \in (IF In("lvl_shared") THEN BOOLEAN ELSE {FALSE}) :
+             \* `await (resources <rel> {a: v})`: a fresh comparison instance listens to the level for as long as it is
+             \* awaited; or (shared) ONE comparison object per (p, rel, v) that the client keeps and all its waiters share
              LET ac1 == [ac EXCEPT ![A].cur = [op |-> "await_lvl", p |-> p]]
-                 n == CmpR(p, v, A, Len(ac1[A].stack) + 1, rel)
-                 o1 == [obj EXCEPT !.lst[p] = Append(@, n)] IN
+                 n == IF shared THEN CmpR(p, v, 0, 0, rel) ELSE CmpR(p, v, A, Len(ac1[A].stack) + 1, rel)
+                 o1 == IF \E i \in 1..Len(obj.lst[p]) : obj.lst[p][i] = n THEN obj ELSE [obj EXCEPT !.lst[p] = Append(@, n)] IN
              /\ obj' = o1
-             /\ ev' = E(B([op |-> "await_lvl", p |-> p, v |-> v, rel |-> rel]))
+             /\ ev' = E(B([op |-> "await_lvl", p |-> p, v |-> v, rel |-> rel, shared |-> shared]))
              /\ IF RelHolds(obj.pool[p].level, rel, v)
                 THEN DoPostpone(Push(ac1, A, [k |-> "cwait", n |-> n]), pending) /\ subs' = subs
                 ELSE DoSubscribe(Push(ac1, A, [k |-> "cwait", n |-> n]), subs, n) /\ pending' = pending
